@@ -367,7 +367,7 @@ fn one_case(rng: &mut Rng, _tier: &str) -> (String, bool, String, Vec<&'static s
         let gitset = |c: u64| -> Item { (1, Some(n), Some(vec![c])) };
         let imp: Item = (2, None, None);
         let exp: Item = (3, None, None);
-        let k = rng.below(8);
+        let k = rng.below(10);
         let items: Vec<Item> = match k {
             // moved in jj, moved / deleted in Git after the last export
             0 => { script = "move-vs-move"; vec![jj(vec![a]), exp.clone(), gitset(c), jj(vec![b]), exp.clone()] }
@@ -385,7 +385,10 @@ fn one_case(rng: &mut Rng, _tier: &str) -> (String, bool, String, Vec<&'static s
                 script = "conflict-then-more-edits";
                 vec![jj(vec![a]), exp.clone(), gitset(c), jj(vec![b]), imp.clone(), gitset(a), imp.clone(), jj(vec![b]), exp.clone()]
             }
-            _ => { script = "delete-vs-delete"; vec![jj(vec![a]), exp.clone(), gitset(0), jj(vec![0]), exp.clone()] }
+            7 => { script = "delete-vs-delete"; vec![jj(vec![a]), exp.clone(), gitset(0), jj(vec![0]), exp.clone()] }
+            // the same move on both sides, seen by an import (no conflict) or by an export
+            8 => { script = "same-change-import"; vec![jj(vec![a]), exp.clone(), gitset(b), jj(vec![b]), imp.clone(), exp.clone()] }
+            _ => { script = "same-change-export"; vec![jj(vec![a]), exp.clone(), gitset(b), jj(vec![b]), exp.clone(), imp.clone()] }
         };
         plan.extend(items);
     }
@@ -635,6 +638,8 @@ fn one_case(rng: &mut Rng, _tier: &str) -> (String, bool, String, Vec<&'static s
         "conflicted-git-ref-and-bookmark" => "script:conflicted-git-ref-and-bookmark",
         "conflict-then-more-edits" => "script:conflict-then-more-edits",
         "delete-vs-delete" => "script:delete-vs-delete",
+        "same-change-import" => "script:same-change-import",
+        "same-change-export" => "script:same-change-export",
         _ => "script:none",
     };
     feats.push(script_feat);
